@@ -1,30 +1,34 @@
 """C15 - the intermediate spanner is a weighted (2k-1)-spanner of girth > 2k."""
 from lib import engine
 from lib.core import tier
-from units import k17_spanner
+from units import k17_spanner, k17b_bfs
 from . import common
 
 LEVEL = "other"
 KINDS = {"spanner-vertices", "spanner-untranslated", "spanner-foreign", "spanner-endpoints", "spanner-weight",
          "spanner-partition", "spanner-translation-size", "spanner-stretch", "spanner-girth", "crash"}
 EXPLANATION = (
-    "PROVED by CBMC (DFCC, loop contract with a ghost position, modular against the contract of is_bfs_reachable - any "
-    "answer, but the caller owes it distinct endpoints and the hop bound 2k-1): the edge loop of construct_spanner puts "
-    "every input edge, in sorted order, EITHER into the spanner - with the mapped endpoints, the INPUT edge's weight and a "
-    "translation entry back to it - OR into the dropped list, never both, and adds nothing else (K17a; table cap m<=12, "
-    "thorough 32).  What depends on the ANSWERS of is_bfs_reachable (stretch, girth) is only bounded: "
-    "Contract K17, observed through the guarded read-only accessors (hook H1, PARMCB_VERIF): same vertex count; "
-    "every spanner edge translates to an input edge with the same endpoints and the same weight; retained and "
-    "dropped edges partition E; every dropped edge (u,v) has a u-v path of <= 2k-1 retained edges none heavier "
-    "than (u,v) (BFS over retained edges of weight <= w(u,v)); the retained subgraph has no cycle of <= 2k edges "
-    "(BFS around every retained edge).  BOUNDED stand-in on the real BaseApproxSpannerAlgorithm constructor "
-    "over the exact-domain set (many equal weights included: the contract must hold for whatever order "
-    "std::sort picked among ties) x k in {1,2,3,5,n}.  is_bfs_reachable/construct_spanner are Boost.Graph "
-    "templates outside CBMC's reach; no deductive content.")
+    "PROVED by CBMC (DFCC loop contracts).  K17a (ghost position; table cap m<=12, thorough 32): the edge loop of "
+    "construct_spanner puts every input edge, in sorted order, EITHER into the spanner - with the mapped endpoints, the INPUT "
+    "edge's weight and a translation entry back to it - OR into the dropped list, never both, adds nothing else, and the edge "
+    "is dropped IF AND ONLY IF is_bfs_reachable answered true when asked for its mapped endpoints with hop bound 2k-1 on the "
+    "spanner built from the earlier positions.  K17b (n<=4, thorough 6; invariants quantified over the bounded vertex range, "
+    "degrees / multi-edges / self-loops unbounded): is_bfs_reachable itself - the visited vertices form a discovery tree with "
+    "exact levels; 'true' means t was reached at level <= max_hops; 'false' means every visited vertex of level <= max_hops "
+    "was fully expanded, none is t, and expanded vertices have all neighbours visited one level further at most - so no path "
+    "of <= max_hops edges exists (lemma, DESIGN 10.8).  A failed loop obligation of K17b is decided by a plain-CBMC variant "
+    "with a DIRECT specification on every undirected multigraph with <= 3 vertices and <= 3 edges, and replayed on the real "
+    "function (e3_bfs).  From K17a + K17b and the sorted order, stretch and girth follow by the classical argument "
+    "(informal).  They are also enforced BOUNDED: Contract K17, observed through the guarded read-only accessors (hook H1, "
+    "PARMCB_VERIF): same vertex count; every spanner edge translates to an input edge with the same endpoints and the same "
+    "weight; retained and dropped edges partition E; every dropped edge (u,v) has a u-v path of <= 2k-1 retained edges none "
+    "heavier than (u,v); the retained subgraph has no cycle of <= 2k edges.  BOUNDED stand-in on the real "
+    "BaseApproxSpannerAlgorithm constructor over the exact-domain set (many equal weights included: the contract must hold "
+    "for whatever order std::sort picked among ties) x k in {1,2,3,5,n}.")
 
 
 def run(rep):
-    engine.run_units(rep, [u for u in k17_spanner.units(tier()) if u.get("unit", "").startswith("K17a")])
+    engine.run_units(rep, [u for u in k17_spanner.units(tier()) if u.get("unit", "").startswith("K17a")] + k17b_bfs.units(tier()))
     common.native_filtered(rep, "e3_approx", KINDS, driver="e3_approx[spanner]", args=["--only", "spanner"],
                            functions={"BaseApproxSpannerAlgorithm::construct_spanner": "bounded", "is_bfs_reachable": "bounded"},
                            assumptions=["hook H1 accessors return the private members unchanged"],
